@@ -109,8 +109,8 @@ SPEC = {
                      "round trip of property values is checked by the tie on every run)",
                      "harness/fakedb.go: in-memory graph.Database fake interpreting the keyset criteria the retriever emits (real drivers not exercised)"],
     "assumptions": ["scrub off; source database unchanged during the dump",
-                    "property values are JSON values; integers beyond 2^53 are kept out of the model tie (suite c18) and exercised in suite obs18, "
-                    "where the loss of precision is the known finding C18:Load.decodeFragment:int-beyond-2^53",
+                    "property values are JSON values; int64 values beyond 2^53 are part of both suites since the UseNumber fix "
+                    "(finding C18:Load.decodeFragment:int-beyond-2^53 fixed; live theorem int_round_trip_fixed)",
                     "Verify is judged against the histograms it compares, not against isomorphism (documented gap, see coverage.gap_note)"],
     "explanation": "C18_full (verification succeeds exactly when the graphs match) is refuted in Lean by a witness pair and confirmed on the real "
                    "code; everything else of the property is proved on the protocol model (c18_partial) and tied to the code by differential runs.",
@@ -131,6 +131,6 @@ MANIFEST = {
             "Dump->Load->Verify on generated databases x codecs x boundary sizes every run; a Lean monitor judges raw observations (recomputed "
             "sha256/byte counts/record counts, directory listing, loaded graph).",
     "note": "Partial clause: 'verification succeeds exactly when the graphs match' is false for the code (metrics fingerprint): refuted in Lean "
-            "(c18_full_refuted, witness: two self loops vs a 2-cycle) and confirmed on the real code each run. Known finding: int64 properties beyond "
-            "2^53 are rounded by Load (float64 decoding). Trusted: codecs, encoding/json, SHA-256, the fake database.",
+            "(c18_full_refuted, witness: two self loops vs a 2-cycle) and confirmed on the real code each run. Fixed finding: int64 properties beyond "
+            "2^53 were rounded by Load (float64 decoding); Load now decodes with UseNumber (int_round_trip_fixed). Trusted: codecs, encoding/json, SHA-256, the fake database.",
 }
